@@ -137,7 +137,7 @@ def run(tier):
 
     ck = Check("C01", tier)
     ck.assumptions += ASSUMPTIONS
-    br = common.build("C01")
+    br = common.build("C01", models=("lang", "parser"))
     ck.proofs(br)
     m = Model() if br.ok else None
     quick = tier == "quick"
@@ -303,6 +303,13 @@ def run(tier):
                              {"relation": "resolver exceptions surface as located errors in a well-formed result",
                               "document": d, "raises": exc_name, "impl": bad})
     ck.count("requests", nreq)
+    # parser model (the totality theorems are about it) vs the five real entry points: outcome class, error
+    # position, whole tree - corpus, all short strings, coordinates, fixture prefixes, token mutants
+    if br.ok:
+        from . import cparser
+        rule0 = ck.rule
+        cparser.core(ck, tier, ("corpus", "A", "C", "E", "F"))
+        ck.rule = rule0 + " (iv) parser model correspondence: see coverage.parser_rule"
     ck.samples.append({"document": docs[3], "variables": repr(var_pool[10])})
     ck.samples.append({"source_prefix_of": "kitchen_sink.graphql"})
     return ck.finish()
